@@ -62,7 +62,7 @@ def generate(tier, seed, shard, nshards):
 def small_angle_program(rng):
     """AC source - R - L loop (optionally a second resistor across the inductor or a small capacitor across the resistor) with
     w L = u R, u in [2e-4, 1e-2]: every resistor voltage/current has a phase between about 0.01 and 0.6 degrees"""
-    w = G.value(rng, 1, 4)
+    w = G.value(rng, 1, 4) if rng.random() < 0.6 else G.value(rng, 5, 8)      # up to the 100 MHz range (frequency shown in Hz with its own prefixes)
     R = G.value(rng, 0, 4)
     u = 10 ** rng.uniform(-3.7, -2.0)
     V = G.value(rng, 0, 2)
@@ -338,6 +338,14 @@ def judge_sinus_value(ctx, prefix, where, text, z, unit, p, w, sin, deg, hertz, 
         ctx.violation(f'{prefix}/{where}/wrong-form', f'{text!r} (sin={sin}, hertz={hertz})', {})
         return
     from ..ref import numparse
+    # the frequency written inside the function: w in 1/s, or w / 2 pi in Hz with the hertz prefix table
+    if q.get('w') is not None:
+        if hertz:
+            okf = judge_value(ctx, prefix, where + '/frequency', q['w'], w / 2 / math.pi, p, 'Hz', C18.TABLES['hertz'], 0.0)
+        else:
+            okf = judge_value(ctx, prefix, where + '/frequency', q['w'], w, p, '/s', None, 0.0)
+        if not okf:
+            return
     true = cmath.phase(z) + (math.pi / 2 if sin else 0.0)
     if q['ph'] is None:
         printed = 0.0
